@@ -48,6 +48,8 @@ def gen_cases(tier, seed):
             for wi in range(leaf[2]):
                 start.append({'kind': 'start-fault', 'name': name, 'tree': tree, 'fail_leaf': leaf[1], 'fail_index': wi,
                               'gc_threshold': rng.choice([None, 700, 100, 10]), 'seed': rng.randrange(1 << 30)})
+                start.append({'kind': 'start-fault', 'name': name, 'tree': tree, 'fail_leaf': leaf[1], 'fail_index': wi, 'transient': True,
+                              'gc_threshold': None, 'seed': rng.randrange(1 << 30)})
         for wl in ('none', 'ok', 'failures', 'timeouts', 'abandoned-stream'):
             stop.append({'kind': 'stop', 'name': name, 'tree': tree, 'workload': wl, 'cycles': 3, 'pending': rng.choice([50, 150, 400]),
                          'pad': rng.choice([100, 1000, 4000]), 'mode': rng.choice(['sync', 'sync', 'async']), 'seed': rng.randrange(1 << 30)})
@@ -64,7 +66,7 @@ def gen_cases(tier, seed):
             rng.shuffle(lst)
         must = {'seqPT', 'seqPP', 'P3b', 'ensTP', 'seq-ensP'}  # multi-worker process stage upstream of another reader, process ensemble members
         bigq = [c for c in big if c['name'] in must]
-        cases = thr_s + prc_s[:10] + thr_e + prc_e[:12] + bigq
+        cases = thr_s + prc_s[:14] + thr_e + prc_e[:12] + bigq
     else:
         cases = start + stop + big
         for c in list(start):
@@ -95,13 +97,15 @@ def alive_now(before):
     return out
 
 
-def with_init_fault(tree, leaf_tag, idx):
+def with_init_fault(tree, leaf_tag, idx, flag=None):
     import copy
 
     t = copy.deepcopy(tree)
     for leaf in SH.leaves(t):
         if leaf[1] == leaf_tag:
             leaf[4]['fail_init_index'] = idx
+            if flag:
+                leaf[4]['fail_init_flag'] = flag
     return t
 
 
@@ -133,7 +137,14 @@ def run_start_fault(case):
 
     viol = []
     obs = {'start_fault_cases': 1, 'enter_raised_own_error': 0, 'census_checks': 0, 'followup_servers': 0, 'queue_feeder_leftovers': 0}
-    tree = with_init_fault(case['tree'], case['fail_leaf'], case['fail_index'])
+    import os
+    import tempfile
+
+    flag = None
+    if case.get('transient'):
+        fd, flag = tempfile.mkstemp(prefix='vf-c11-flag-')
+        os.close(fd)
+    tree = with_init_fault(case['tree'], case['fail_leaf'], case['fail_index'], flag)
     before = watch.census()
     if case['gc_threshold']:
         gc.set_threshold(case['gc_threshold'])
@@ -177,6 +188,39 @@ def run_start_fault(case):
         kind = 'processes' if 'children' in extra else 'threads'
         viol.append({'mech': f'lifecycle/workers-left-after-failed-enter/{kind}', 'msg': f'{case["name"]}: worker {case["fail_leaf"]}[{case["fail_index"]}] failed to initialise; still alive: {extra!r}'[:700]})
         return {'violations': viol, 'obs': obs, 'exit_after': True, 'nontrivial': True, 'sig': repr((case['name'], case['fail_leaf'], case['fail_index']))}
+    if flag:
+        # the cause of the failure has gone away: the SAME server object is entered again, used, left, and entered once more
+        os.unlink(flag)
+        sig0 = repr((case['name'], case['fail_leaf'], case['fail_index'], 'transient'))
+
+        def same_object():
+            out = []
+            for cyc in range(2):
+                with server:
+                    out.append(small_workload(server, case['tree'], n=4, client=50 + cyc))
+                box[f'alive{cyc}'] = alive_now(before)
+            return out
+
+        try:
+            res2 = watch.run_bounded(same_object, BOUND, 'the same server object entered again after a failed __enter__')
+        except watch.Hang as h:
+            viol.append({'mech': 'lifecycle/reentry-after-failed-enter-hangs', 'msg': f'{case["name"]}: after a failed __enter__ (worker {case["fail_leaf"]}[{case["fail_index"]}]) whose cause was removed, re-entering / leaving the same server did not return', 'stacks': h.stacks})
+            return {'violations': viol, 'obs': obs, 'exit_after': True, 'nontrivial': True, 'sig': sig0}
+        except BaseException as e:  # noqa: BLE001
+            viol.append({'mech': 'lifecycle/reentry-after-failed-enter-fails', 'msg': f'{case["name"]}: after a failed __enter__ (worker {case["fail_leaf"]}[{case["fail_index"]}]) whose cause was removed, using the same server object raised {e!r}'})
+            return {'violations': viol, 'obs': obs, 'exit_after': True, 'nontrivial': True, 'sig': sig0}
+        obs['same_object_reentries'] = obs.get('same_object_reentries', 0) + 2
+        for r in res2:
+            judge_small(case['tree'], r, viol, 'same-object-after-failed-enter')
+        for cyc in range(2):
+            if box.get(f'alive{cyc}'):
+                viol.append({'mech': 'lifecycle/worker-outlives-exit', 'msg': f'{case["name"]}: alive when __exit__ returned (cycle {cyc} after a failed enter): {box[f"alive{cyc}"]!r}'[:500]})
+        box.clear()
+        extra, info = watch.leak_check(before, wait=6.0)
+        if extra:
+            viol.append({'mech': 'lifecycle/leak-after-exit', 'msg': f'same server object after a failed enter: still alive after __exit__: {extra!r}'[:600]})
+        return {'violations': viol, 'obs': obs, 'nontrivial': True, 'sig': sig0, 'exit_after': bool(viol) or SH.has_process(tree),
+                'sample': {'kind': 'start-fault-transient', 'tree': case['name'], 'failing_worker': [case['fail_leaf'], case['fail_index']], 'reentries': 2}}
     # second-order history: a new server is entered in the same process (no gc.collect() in between, deliberately)
     tree2 = case['tree']
     server2 = Server(SH.build(tree2), capacity=16)
